@@ -53,7 +53,7 @@ var methodLists = [][]string{{"CLAIMTOBE"}, {"FS"}, {"CLAIMTOBE", "FS"}, {"FS", 
 
 // peer kinds per role of the *peer*
 var serverPeers = []string{"honest", "auth-no", "enc-no", "enc-no-keep-key", "key-omit", "key-truncated", "key-random", "key-garbage", "no-common-cipher",
-	"select-unoffered", "select-several", "select-zero", "select-unknown", "postauth-denied", "postauth-clear", "postauth-identity", "auth-no-enc-no", "select-unlisted-and-run"}
+	"select-unoffered", "select-several", "select-zero", "select-unknown", "postauth-denied", "postauth-clear", "postauth-identity", "auth-no-enc-no", "select-unlisted-and-run", "postauth-secret-attr"}
 var clientPeers = []string{"honest", "never", "key-omit", "key-truncated", "key-random", "key-garbage", "no-common-cipher", "bits-unlisted", "bits-extra", "bits-zero", "enc-never"}
 var resumePeers = []string{"honest", "reply-denied", "reply-notfound", "no-key", "wrong-key"}
 
@@ -101,6 +101,8 @@ func peerOpts(c Case) kit.PeerOpts {
 		o.PostAuthReturnCode = "DENIED"
 	case "postauth-clear":
 		o.PostAuthInClear = true
+	case "postauth-secret-attr":
+		o.PostAuthSecretAttr = true
 	case "postauth-identity":
 		o.PostAuthUser, o.PostAuthSid = "root@everywhere", "victim:1:1:1"
 	case "never":
